@@ -21,7 +21,9 @@ RULE = ("random rule trees (depth<=3, <=4 children per rule, children drawn from
         "in any written order, refinement-of-refinement, alternatives inside refinement and alternative blocks) over "
         "1-2 variables whose base rule mentions every variable, conclusions tagged by branch and built from all or only "
         "some of the variables, or absent (a branch that only suppresses); a fifth of the cases are deep chains (refinement of a refinement of a refinement with "
-        "alternatives / next_rules written inside the deeper blocks) over two variables; thorough adds every tree "
+        "alternatives / next_rules written inside the deeper blocks) over two variables; branch conditions may be a "
+        "Predicate / HasType on their own; an eighth of the cases range over x and e = flatten(x.items) with conclusions "
+        "built from both; thorough adds every tree "
         "shape with <=4 branches over a one-variable 8-element domain.  Non-trivial = at least two different branches "
         "fire for some bindings and at least one binding fires nothing; distinct = tree shape (kinds and nesting) x "
         "condition skeletons")
@@ -50,10 +52,22 @@ def recover(ctx):
     ctx["m"].reset_eql_process_state()
 
 
+def gen_pred_atom(rng, names):
+    v, w = rng.choice(names), rng.choice(names)
+    k = rng.random()
+    if k < 0.4:
+        return ["pred", "BothPositive", [["var", v], ["var", w]]]
+    if k < 0.7:
+        return ["pred", "AGreater", [["var", v], ["lit", rng.randint(0, 1)]]]
+    return ["hastype", ["var", v], "Q"]
+
+
 def gen_rule(rng, names, depth, counter, gctx, kinds):
     r = {"id": f"r{next(counter)}", "cond": GEN.gen_atom(rng, names, False, gctx), "children": []}
     while r["cond"][0] in ("truth",):
         r["cond"] = GEN.gen_atom(rng, names, False, gctx)
+    if rng.random() < 0.15:
+        r["cond"] = gen_pred_atom(rng, names)      # a Predicate / HasType as the whole condition of a branch
     if depth > 0:
         for _ in range(rng.choice([0, 1, 1, 2, 2, 3, 4])):
             r["children"].append([rng.choice(kinds), gen_rule(rng, names, depth - 1, counter, gctx, kinds)])
@@ -85,7 +99,38 @@ def gen_chain(rng, names, depth, counter):
     return r
 
 
+def gen_flat(rng):
+    """one variable x and e = flatten(x.items): the base binds both, conclusions are built from x and e"""
+    world = G.gen_world(rng, n=rng.randint(2, 6))
+    for o in world:
+        o["items"] = [rng.randint(0, 3) for _ in range(rng.choice([0, 1, 2, 2, 3]))]
+    vars_ = GEN.gen_vars(rng, world, 1, allow_empty=False)
+    vars_[0]["type"] = "P"
+    vars_[0]["kind"] = rng.choice(["list", "gen"])
+    counter = itertools.count()
+
+    def atom():
+        if rng.random() < 0.5:
+            return ["cmp", rng.choice(GEN.CMP), ["var", "e"], ["lit", rng.randint(0, 3)]]
+        return ["cmp", rng.choice(GEN.CMP), ["attr", ["var", "x"], rng.choice("ab")], ["lit", rng.randint(0, 2)]]
+
+    def rule(depth):
+        r = {"id": f"r{next(counter)}", "cond": atom(), "children": [], "concl": rng.choice(["xe", "xe", "x"])}
+        if depth > 0:
+            for _ in range(rng.choice([0, 1, 1, 2])):
+                r["children"].append([rng.choice(["ref", "alt", "alt"]), rule(depth - 1)])
+        return r
+
+    root = rule(rng.randint(0, 2))
+    root["cond"] = ["and", ["cmp", ">=", ["var", "e"], ["lit", 0]], root["cond"]]     # binds x and e
+    root["concl"] = "xe"
+    return {"world": world, "vars": vars_, "derived": [{"name": "e", "kind": "flat", "of": ["attr", ["var", "x"], "items"]}],
+            "rule": root, "profile": "flat"}
+
+
 def gen(rng, tier, ctx):
+    if rng.random() < 0.12:
+        return gen_flat(rng)
     if rng.random() < 0.2:
         world = G.gen_world(rng, n=rng.randint(4, 7))
         vars_ = GEN.gen_vars(rng, world, 2, allow_empty=False)
@@ -303,7 +348,7 @@ def build_and_run(spec, m, objs):
     from krrood.entity_query_language.quantify_entity import an
     from krrood.entity_query_language.conclusion import Add
     from krrood.entity_query_language.rule import refinement, alternative, next_rule
-    bspec = {"world": spec["world"], "vars": spec["vars"], "derived": [], "cond": None,
+    bspec = {"world": spec["world"], "vars": spec["vars"], "derived": spec.get("derived", []), "cond": None,
              "select": [["var", spec["vars"][0]["name"]]], "mode": "entity"}
     b = G.build(bspec, m, objs)
     V = b.V
@@ -324,6 +369,11 @@ def build_and_run(spec, m, objs):
             return E.and_(bc(c[1]), bc(c[2]))
         if k == "not":
             return E.not_(bc(c[1]))
+        if k == "pred":
+            return getattr(m, c[1])(*[bt(t) for t in c[2]])
+        if k == "hastype":
+            from krrood.entity_query_language.predicate import HasType
+            return HasType(bt(c[1]), getattr(m, c[2]))
         raise ValueError(c)
 
     v = inference(m.V)()
@@ -335,6 +385,8 @@ def build_and_run(spec, m, objs):
         kw = {"tag": r["id"], "p": V[names[0]]}
         if len(names) > 1 and r.get("concl", "xy") == "xy":
             kw["q"] = V[names[1]]
+        if r.get("concl") == "xe":
+            kw["q"] = V["e"]
         Add(v, inference(m.V)(**kw))
 
     def write(r):
@@ -383,7 +435,24 @@ def run(spec, ctx):
             collect(ch)
 
     collect(spec["rule"])
-    for combo in itertools.product(*doms):
+    flat = spec.get("profile") == "flat"
+    if flat:
+        # bindings are (x, one element of x.items); a condition is decided by the first-order oracle over that binding
+        C["flat_cases"] += 1
+        ospec = {"world": spec["world"], "vars": spec["vars"], "derived": spec["derived"]}
+        for xo in doms[0]:
+            for ev in xo.items:
+                def holds(r, xo=xo, ev=ev):
+                    s = dict(ospec, cond=["and", r["cond"], ["cmp", "==", ["var", "e"], ["lit", ev]]], select=[["var", "x"]],
+                             mode="set_of", vars=[dict(spec["vars"][0], dom=[idmap[id(xo)]], kind="list")])
+                    return bool(G.oracle(s, m, objs))
+
+                fired, ids = interpret(spec["rule"], holds)
+                C["bindings_interpreted"] += 1
+                fired_sets[frozenset(ids)] += 1
+                for rid in ids:
+                    exp.add((rid, idmap[id(xo)], ev if concl_of.get(rid) == "xe" else None))
+    for combo in (itertools.product(*doms) if not flat else ()):
         A = dict(zip(names, combo))
 
         def holds(r, A=A):
@@ -413,7 +482,10 @@ def run(spec, ctx):
         if not isinstance(r, m.V):
             bad_inst.append(repr(r))
             continue
-        key = (r.tag, idmap.get(id(r.p), "?")) + (((idmap.get(id(r.q), "?") if r.q is not None else None),) if len(names) > 1 else ())
+        if flat:
+            key = (r.tag, idmap.get(id(r.p), "?"), r.q)
+        else:
+            key = (r.tag, idmap.get(id(r.p), "?")) + (((idmap.get(id(r.q), "?") if r.q is not None else None),) if len(names) > 1 else ())
         got.add(key)
     C["instances_compared"] += len(got)
     if got == exp and not bad_inst:
